@@ -343,6 +343,9 @@ def main(ctx):
         'over-strict refusals (rule accepts, code refuses) are reported as '
         'model divergence, not as violations: the property is one-directional '
         'for certificates and SSHSIG',
+        'algorithm name "differs" means it names another algorithm: alias '
+        'names of the same algorithm (ssh-rsa-sha512@ssh.com = rsa-sha2-512) '
+        'are interchangeable by construction of the SSH signature format',
         'ECDSA (r, n-s) malleability is outside the quantifier (single-byte '
         'edits) and not tested',
         'certificates are built by the harness encoder and signed with '
